@@ -9,14 +9,14 @@ Section SeqProofs.
   Variable mstep : G -> option G.
   Variable is_idle : PC -> bool.
   Variable idle : PC.
-  Variables (op_start op_stop op_startf : OP).
+  Variables (op_start op_stop op_startf op_startt : OP).
   Variable view : G -> list nat.
   Variable busy : G -> G.
   Variable alive : G -> bool.
   Variable serving : G -> nat.
   Variable sinv : G -> bool -> bool.
-  Notation seq_step := (seq_step G PC OP lkof cstep mstep is_idle idle op_start op_stop op_startf view busy alive serving).
-  Notation run_seq := (run_seq G PC OP lkof cstep mstep is_idle idle op_start op_stop op_startf view busy alive serving).
+  Notation seq_step := (seq_step G PC OP lkof cstep mstep is_idle idle op_start op_stop op_startf op_startt view busy alive serving).
+  Notation run_seq := (run_seq G PC OP lkof cstep mstep is_idle idle op_start op_stop op_startf op_startt view busy alive serving).
 
   Hypothesis one : forall gl r o, sinv gl r = true ->
     exists g', seq_step gl o = Some (g', spec_obs r o) /\ sinv g' (spec_next r o) = true.
